@@ -93,6 +93,15 @@ def main():
                 shutil.copy(demo_src, dst)
                 m = dict(meta)
                 m.update({'breaks_property': prop, 'needs_to_manifest': meta.get('needs', ''), 'confirmation': rec})
+                if tag.startswith('adv'):
+                    # white-box red-team change: written to pass the check as it stood
+                    m['red_team'] = True
+                    m['missed_by_check_as_it_stood'] = True
+                    if rec['caught_by']:
+                        kinds = []
+                        for p in rec['caught_by']:
+                            kinds += caught[p]['violation_kinds'][:3]
+                        m['caught_after_strengthening'] = 'caught by %s after the red-team strengthening (%s)' % (', '.join(rec['caught_by']), ', '.join(kinds[:4]))
                 json.dump(m, open(os.path.join(dst, 'meta.json'), 'w'), indent=1)
         finally:
             subprocess.run(['git', '-C', '/repo', 'worktree', 'remove', '--force', wt])
